@@ -1,6 +1,7 @@
 package env
 
 import (
+	"crypto/sha256"
 	"fmt"
 	"sort"
 	"strings"
@@ -75,7 +76,7 @@ func (l Link) Digest() string {
 	fmt.Fprintf(&b, "%s/%s/%s/%s/%s/%s/%d/%s/%s/%d|", l.PClient, l.CClient, l.PConn, l.CConn, l.PChan, l.CChan, l.Stage, l.XPChan, l.XCChan, l.XStage)
 	for _, d := range []Dir{l.P2C, l.C2P, l.XC2P} {
 		for _, p := range d.Packets {
-			fmt.Fprintf(&b, "p%d@%d,", p.P.Sequence, p.SentHeight)
+			fmt.Fprintf(&b, "p%d@%d:%x,", p.P.Sequence, p.SentHeight, sha256.Sum256(p.P.Data))
 		}
 		b.WriteString("/")
 		for _, a := range d.Acks {
